@@ -125,6 +125,10 @@ def main():
             continue
         locs = gen_locals(rng, table) + ([b"liste-foo", b"listE-Foo", b"liste", b"JOE", b"joe"] if ti == 0 else [])
         reps, lg = L.deliver(locs)
+        # no report at all within the time limit says nothing about the code: ask again, once, with a fresh qmail-lspawn
+        for k, r0 in enumerate(reps):
+            if r0 == b"":
+                r1, lg1 = L.deliver([locs[k]]); reps[k] = r1[0]; lg += lg1; ck.count("report_reread")
         # set*id order per child: setgroups, setgid, setuid, then execv of bin/qmail-local
         bypid = {}
         for line in lg:
